@@ -354,5 +354,107 @@ theorem triCtx_vertexBox (t : Tri) (w : Nat) (off : StrokeOffset) (collapsed has
   · intro _
     exact triCtx_vertexBox_verts t
 
+/-! ### The generic reduction: outline end points in the box -/
+
+/-- The segment drawn by the edge closure for index `idx` is one of the three closed segments. -/
+theorem edge_segment_mem (tc : Tri) (w : Nat) (off : StrokeOffset) (segs : List ThickSegment)
+    (hs : closedSegments3 tc w off = some segs) (idx : Nat) (a b : LineJoin)
+    (ha : LineJoin.fromPoints (tc.vertex idx) (tc.vertex (idx + 1)) (tc.vertex (idx + 2)) w off = some a)
+    (hb : LineJoin.fromPoints (tc.vertex (idx + 1)) (tc.vertex (idx + 1 + 1)) (tc.vertex (idx + 1 + 2)) w off
+      = some b) : (⟨a, b⟩ : ThickSegment) ∈ segs := by
+  unfold closedSegments3 at hs
+  cases h0 : LineJoin.fromPoints tc.v3 tc.v1 tc.v2 w off with
+  | none => rw [h0] at hs; cases hs
+  | some j0 =>
+    cases h1 : LineJoin.fromPoints tc.v1 tc.v2 tc.v3 w off with
+    | none => rw [h0, h1] at hs; cases hs
+    | some j1 =>
+      cases h2 : LineJoin.fromPoints tc.v2 tc.v3 tc.v1 w off with
+      | none => rw [h0, h1, h2] at hs; cases hs
+      | some j2 =>
+        rw [h0, h1, h2] at hs
+        simp only [Option.bind_eq_bind, Option.bind_some, pure, Option.some.injEq] at hs
+        subst hs
+        obtain ⟨m0, m1, m2⟩ := vertex_mod tc idx
+        obtain ⟨n0, n1, n2⟩ := vertex_mod tc (idx + 1)
+        obtain ⟨o0, o1, o2⟩ := vertex_mod tc (idx + 2)
+        obtain ⟨p0, p1, p2⟩ := vertex_mod tc (idx + 1 + 1)
+        obtain ⟨q0, q1, q2⟩ := vertex_mod tc (idx + 1 + 2)
+        have hmod : idx % 3 = 0 ∨ idx % 3 = 1 ∨ idx % 3 = 2 := by omega
+        rcases hmod with hm | hm | hm
+        · rw [m0 hm, n1 (by omega), o2 (by omega), h1] at ha
+          rw [n1 (by omega), p2 (by omega), q0 (by omega), h2] at hb
+          cases ha; cases hb; simp
+        · rw [m1 hm, n2 (by omega), o0 (by omega), h2] at ha
+          rw [n2 (by omega), p0 (by omega), q1 (by omega), h0] at hb
+          cases ha; cases hb; simp
+        · rw [m2 hm, n0 (by omega), o1 (by omega), h0] at ha
+          rw [n0 (by omega), p1 (by omega), q2 (by omega), h1] at hb
+          cases ha; cases hb; simp
+
+/-- The guard of the generic reduction: the end points of the outline lines of the three closed
+segments (at most 24 points) and the three vertices lie in the bounding box, whose top row is an
+`i32`. -/
+def TriOutlineGuard (t : Tri) (style : TriStyle) : Prop :=
+  match triStyledBoundingBox t style with
+  | some bb =>
+    (-2147483648 : Int) ≤ bb.tl.y ∧
+    match closedSegments3 t.sortedClockwise style.strokeWidth style.strokeAlignment.toOffset with
+    | some segs =>
+      (∀ s ∈ segs, ∀ l ∈ s.outline, bb.contains l.start = true ∧ bb.contains l.stop = true) ∧
+      (bb.contains t.v1 = true ∧ bb.contains t.v2 = true ∧ bb.contains t.v3 = true)
+    | none => True
+  | none => True
+
+instance (t : Tri) (style : TriStyle) : Decidable (TriOutlineGuard t style) := by
+  unfold TriOutlineGuard
+  split
+  · refine @instDecidableAnd _ _ _ ?_
+    split <;> exact inferInstance
+  · exact inferInstance
+
+/-- `TriCtx` from the generic guard (any width, any alignment). -/
+theorem triCtx_outline (t : Tri) (style : TriStyle) (hg : TriOutlineGuard t style) (bb : Rect)
+    (hbb : triStyledBoundingBox t style = some bb) (c : Bool)
+    (hc : t.sortedClockwise.isCollapsed style.strokeWidth style.strokeAlignment.toOffset = some c) :
+    TriCtx t.sortedClockwise style.strokeWidth style.strokeAlignment.toOffset bb.tl.x
+      (bb.tl.x + bb.size.w - 1) (c && style.strokeAlignment.toOffset == .right) style.fillColor.isSome := by
+  unfold TriOutlineGuard at hg
+  rw [hbb] at hg
+  simp only at hg
+  obtain ⟨_, hg⟩ := hg
+  -- `is_collapsed` succeeded, so the three joins exist
+  have hsegs : ∃ segs, closedSegments3 t.sortedClockwise style.strokeWidth
+      style.strokeAlignment.toOffset = some segs := by
+    unfold Tri.isCollapsed Tri.joins at hc
+    unfold closedSegments3
+    cases h0 : LineJoin.fromPoints t.sortedClockwise.v3 t.sortedClockwise.v1 t.sortedClockwise.v2
+        style.strokeWidth style.strokeAlignment.toOffset with
+    | none => rw [h0] at hc; cases hc
+    | some j0 =>
+      cases h1 : LineJoin.fromPoints t.sortedClockwise.v1 t.sortedClockwise.v2 t.sortedClockwise.v3
+          style.strokeWidth style.strokeAlignment.toOffset with
+      | none => rw [h0, h1] at hc; cases hc
+      | some j1 =>
+        cases h2 : LineJoin.fromPoints t.sortedClockwise.v2 t.sortedClockwise.v3 t.sortedClockwise.v1
+            style.strokeWidth style.strokeAlignment.toOffset with
+        | none => rw [h0, h1, h2] at hc; cases hc
+        | some j2 => exact ⟨_, rfl⟩
+  obtain ⟨segs, hs⟩ := hsegs
+  rw [hs] at hg
+  simp only at hg
+  obtain ⟨hout, hv⟩ := hg
+  refine ⟨?_, ?_⟩
+  · intro _ _ idx a b ha hb
+    exact covered_segOK (hout _ (edge_segment_mem _ _ _ segs hs idx a b ha hb))
+  · intro _
+    exact verts_in_columns t bb hv
+
+theorem triOutlineGuard_top (t : Tri) (style : TriStyle) (hg : TriOutlineGuard t style) (bb : Rect)
+    (hbb : triStyledBoundingBox t style = some bb) : -2147483648 ≤ bb.tl.y := by
+  unfold TriOutlineGuard at hg
+  rw [hbb] at hg
+  exact hg.1
+
 end Joins
 end EG
